@@ -115,6 +115,8 @@ def glob_re(pat):
             out += ".*"; i += 1
         elif pat[i] == "?":
             out += "."; i += 1
+        elif pat[i] == "\\" and i + 1 < len(pat):          # backslash_escape is on (Unix): \x is the character x
+            out += re.escape(pat[i + 1]); i += 2
         else:
             out += re.escape(pat[i]); i += 1
     return re.compile("^" + out + "$", re.S)
@@ -191,7 +193,9 @@ def oracle_step(before, after, op, failed):
 
 
 # ------------------------------------------------------------------------------- tree evolution
-FILES = ["a", "b.txt", "with space", "ünï", "名前", ".hidden", "UPPER", "x.tar.gz", "q'uote", "c", "dd", "e.bin"]
+# a backslash is an ordinary character of a Unix file name: `re\port.txt`, and `d\c` next to the path d/c (seeded C11-6:
+# a reader that takes `\` for a separator no longer finds the entry update names, and merges d\c with d/c)
+FILES = ["a", "b.txt", "with space", "ünï", "名前", ".hidden", "UPPER", "x.tar.gz", "q'uote", "c", "dd", "e.bin", "re\\port.txt", "d\\c"]
 DIRS = ["", "d", "d/sub", "e"]
 
 
